@@ -33,7 +33,7 @@ struct Barrier {
    void wait() { std::unique_lock<std::mutex> l(m); int g = generation; if (++waiting == n) { waiting = 0; ++generation; cv.notify_all(); } else cv.wait(l, [&] { return g != generation; }); }
 };
 
-struct LifeSpec { int kind; std::uint64_t seed; const Prog* prog; bool destroy_early; bool inject; };
+struct LifeSpec { int kind; std::uint64_t seed; const Prog* prog; bool destroy_early; bool inject; int nest = 0; };
 
 struct Life {
    std::unique_ptr<impl::Lexicon> lex;
@@ -174,6 +174,24 @@ void run_life(const LifeSpec& spec, Life& L)
       tr << "\n";
       T.tick();
    }
+   // (e) a nest of blocks deeper than anything printed in this process before: whatever the printer keeps per process
+   //     (and grows on demand) is exercised by several threads at once
+   if (spec.nest > 0) {
+      impl::Region* r = unit.global_region();
+      impl::Block* outer = lex.make_block(*r); impl::Block* b = outer;
+      for (int d = 0; d < spec.nest; ++d) {
+         b->add_stmt(*lex.make_expr_stmt(*lex.make_literal(CL.int_type(), widen(std::to_string(d)))));
+         impl::Block* inner = lex.make_block(b->lexical_region); b->add_stmt(*inner);
+         if (d % 7 == 3) { auto* h = b->new_handler(lex.get_identifier(u8"e"), CL.int_type()); h->body().add_stmt(*lex.make_break()); }
+         b = inner;
+         if (d % 8 == 0) T.tick();
+      }
+      b->add_stmt(*lex.make_return(*lex.make_literal(CL.int_type(), u8"0")));
+      std::ostringstream os;
+      for (int k = 0; k < 2; ++k) { Printer pp(CL, os); pp << xpr_stmt(*outer); os << "\n"; T.tick(); }
+      tr << "nest:" << spec.nest << "\n" << os.str();
+      L.printed += (long long)os.str().size();
+   }
    L.trace = tr.str();
    if (spec.destroy_early) { L.sweep.reset(); L.modules.clear(); L.more_units.clear(); L.unit.reset(); L.lex.reset(); }
    g_inside.fetch_sub(1, std::memory_order_relaxed);
@@ -242,11 +260,18 @@ static void body(Ctx& C)
          GenOptions o; o.size = aux ? 4 : 6 + int(rng.below(C.thorough ? 40 : 16)); o.max_depth = 2 + int(rng.below(5)); o.locations = true; o.unsupported = rng.chance(30); o.control_bytes = rng.chance(30); o.noise = true;
          Rng pr(rng.next());
          progs.push_back(std::make_unique<Prog>(generate_program(pr, o)));
-         specs.push_back(LifeSpec { int(rng.below(60)), rng.next(), progs.back().get(), false, true });
+         specs.push_back(LifeSpec { int(rng.below(60)), rng.next(), progs.back().get(), false, true, 0 });
+         // every round prints a nest deeper than all earlier rounds of this process did
+         if (k % 2 == 0) specs.back().nest = std::min(200, 24 + 9 * round + int(rng.below(5)));
       }
-      // sequential reference traces (no delays, main thread, alone)
+      // sequential reference traces (no delays, main thread, alone): in odd rounds before the threads run, in even rounds
+      // after them -- process-wide state that only changes the first time something is done (a lazily built table, a
+      // buffer grown on demand) is then first touched by the concurrent threads, not by the reference run
+      const bool reference_first = round % 2 == 1;
       std::vector<std::string> ref;
-      for (auto& s : specs) { Life L; LifeSpec alone = s; alone.inject = false; alone.destroy_early = true; run_life(alone, L); ref.push_back(std::move(L.trace)); C.count("reference_lives"); }
+      auto reference_runs = [&] { for (auto& s : specs) { Life L; LifeSpec alone = s; alone.inject = false; alone.destroy_early = true; run_life(alone, L); ref.push_back(std::move(L.trace)); C.count("reference_lives"); } };
+      if (reference_first) reference_runs();
+      C.count(reference_first ? "rounds_reference_before_threads" : "rounds_threads_before_reference");
       std::vector<int> assign(static_cast<std::size_t>(T));
       for (int t = 0; t < T; ++t) assign[std::size_t(t)] = t < distinct_lives ? t : int(rng.below(std::uint64_t(distinct_lives)));
       std::vector<Life> lives(static_cast<std::size_t>(T));
@@ -263,6 +288,7 @@ static void body(Ctx& C)
             });
          for (auto& x : th) x.join();
       }
+      if (!reference_first) reference_runs();
       // (2) trace equality
       for (int t = 0; t < T; ++t) {
          auto& L = lives[std::size_t(t)];
@@ -308,7 +334,7 @@ static void body(Ctx& C)
    }
    C.count("shared_addresses_checked", sharing_checked); C.count("shared_addresses_that_are_constants", shared_constants);
    C.count("api_ticks", total_ticks); C.count("api_ticks_with_two_or_more_threads_inside", overlap_ticks); C.count("thread_alternations_in_ticket_order", alternations);
-   for (auto k : { "rounds", "lives_on_threads", "api_batches", "printed_bytes", "shared_addresses_checked", "rounds_with_sharing_check", "rounds_destroying_while_others_construct", "trace_bytes_compared" }) C.need(k);
+   for (auto k : { "rounds", "lives_on_threads", "api_batches", "printed_bytes", "shared_addresses_checked", "rounds_with_sharing_check", "rounds_destroying_while_others_construct", "trace_bytes_compared", "rounds_reference_before_threads", "rounds_threads_before_reference" }) C.need(k);
    C.need("api_ticks_with_two_or_more_threads_inside", 100); C.need("thread_alternations_in_ticket_order", 100);
    C.sample(J().s("kind", "round").s("what", "T threads x (reserved words + constants + all-factories sweep + generated program printed twice + table growth), half of the threads on the same life").str());
 }
